@@ -848,7 +848,7 @@ def verdict(ck):
     c = ck.counters
     ck.floor('daemons whose connections share one protect entry object, every connection served with its own endpoints', c['shared_entries.all_connections_served'], 18)
     ck.floor('tunnels between corner networks (other family than the gateways, all-zero networks, /31, /127 ...) established and compared', c['corner_networks.established'], 36)
-    ck.floor('requests / responses with selectors of an unimplemented TS type after which nothing was installed', c['unknown_ts.nothing_installed'], 50)
+    ck.floor('requests / responses with selectors of an unimplemented TS type after which nothing was installed', c['unknown_ts.nothing_installed'], 40)
     ck.floor('... and their controls (same octets, TS type 7 / 8) served', c['unknown_ts.controls_served'], 12)
     ck.floor('exhaustive selector pairs', c['subset.pairs'], 3 * 32400)
     ck.floor('network round trips', c['network.roundtrips'], 2000)
